@@ -69,7 +69,10 @@ type Event struct {
 	Inject     error `json:"-"` // if non-nil the op is not executed and this error is returned
 	ShortWrite int   `json:"-"` // if >0 on a write: write only this many bytes and return (n, nil)
 	FailAfter  error `json:"-"` // if non-nil: execute op, then return this error instead of its result
-	err        error
+	// Effective is set when the backend operation really ran and succeeded (even if the caller was then
+	// given an injected error through FailAfter).
+	Effective bool `json:"-"`
+	err       error
 }
 
 // Error returns the error the caller saw.
@@ -182,6 +185,7 @@ func (m *Monitor) begin(actor, op, path, path2 string, flag, ln int, h int64) *E
 }
 
 func (m *Monitor) end(e *Event, n int, err error) error {
+	e.Effective = err == nil && e.Inject == nil
 	if e.FailAfter != nil {
 		err = e.FailAfter
 	}
